@@ -95,6 +95,16 @@ fn loop_cases() -> &'static Vec<Case> {
                     }
                 }
             }
+            // quotients of factorials / binomial shapes with large whole arguments (a fast path that loops over the arguments'
+            // value instead of failing fast)
+            if vocab::has_fact(ev) {
+                for (n, k, m) in [("30000", "15000", "15000"), ("100000", "50000", "50000"), ("4000000000000000", "2000000000000000", "2000000000000000"), ("171", "85", "86"), ("1000", "1", "999"), ("100000", "99999", "1"), ("20", "10", "10")] {
+                    strings.push(format!("{}!/({}!*{}!)", n, k, m));
+                    strings.push(format!("{}!/{}!/{}!", n, k, m));
+                    strings.push(format!("{}!/({}!*({}-{})!)", n, k, n, k));
+                    strings.push(format!("{}!/{}!", n, k));
+                }
+            }
             strings.sort();
             strings.dedup();
             for s in strings {
